@@ -349,6 +349,9 @@ int main(void)
     char*  tok  = strtok_r(line, " ", &save);
     const int dup = tok && tok[0] == 'd' && tok[1] == '1';
     null_mode     = tok && strchr(tok, 'z') != NULL;
+    // q (sets only): zix_tree_insert is called without an iterator out-parameter (it is optional); the iterator is
+    // then obtained with zix_tree_find, whose comparisons are kept out of the insertion's comparator log
+    const int quiet_ti = !dup && tok && strchr(tok, 'q') != NULL;
     null_id       = -1;
     last_found    = NULL;
     n_ids = 0;
@@ -390,8 +393,13 @@ int main(void)
         if (as_null) {
           null_id = id;
         }
-        const ZixStatus st = zix_tree_insert(tree, as_null ? NULL : e, &ti);
+        const ZixStatus st = zix_tree_insert(tree, as_null ? NULL : e, quiet_ti ? NULL : &ti);
         fail_next = 0;
+        if (quiet_ti && (st == ZIX_STATUS_SUCCESS || st == ZIX_STATUS_EXISTS)) {
+          const int n_log = n_cmplog;
+          zix_tree_find(tree, as_null ? NULL : e, &ti);
+          n_cmplog = n_log;
+        }
         const char* sname = st == ZIX_STATUS_SUCCESS  ? "OK"
                             : st == ZIX_STATUS_EXISTS ? "EXISTS"
                             : st == ZIX_STATUS_NO_MEM ? "NOMEM"
